@@ -59,8 +59,13 @@ package wire
 //@   assert send: !has(c.replyCh, reqid(v)) && unheld(c.mu)   // one delivery per registration (the 1-slot reply channel cannot block the dispatcher), never under the lock
 
 //@ func (*ClientConn).readReliableLoop
-//@   props C06 C16
-//@   assert select: idx != 0 - 1   // the dispatcher never drops a message because a consumer is behind (no default arm)
+//@   props C06 C16 C15
+//@   assert[C06,C16] select: idx != 0 - 1   // the dispatcher never drops a message because a consumer is behind (no default arm)
+//@   ghostvar pingOwed bool = false
+//@   after recv msgCh: pingOwed = typeis(v, *message.Ping)
+//@   after send msgPingCh: pingOwed = false
+//@   assert[C15] send msgPingCh: pingOwed
+//@   loop 1 invariant[C15] !pingOwed   // a ping taken from the transport is handed to the pong writer before the next message is taken
 
 // ---------------------------------------------------------------- alias generator (C04)
 // Precondition "no wrap": fewer than 2^32-1 aliases are minted per stream (A5).
@@ -115,3 +120,47 @@ package wire
 //@   nopanic
 //@   modifies nothing
 //@   ensures result == g.currentValue
+
+// ---------------------------------------------------------------- C15: keepalive
+// every broker ping is answered by exactly one pong carrying the ping's request id
+//@ func (*ClientConn).readPingLoop
+//@   props C15
+//@   ghostvar owed bool = false
+//@   ghostvar id uint32 = 0
+//@   after recv msgPingCh: owed = (v != nil)
+//@   after recv msgPingCh: id = v.RequestID
+//@   assert call Write: owed && typeis(arg0, *message.Pong) && unbox(arg0, *message.Pong) != nil && unbox(arg0, *message.Pong).RequestID == id
+//@   after call Write: owed = false
+//@   loop 1 invariant !owed
+
+// the keepalive loop pings at the configured interval, gives the connection up only after a
+// ping failed, and never ignores a failed ping: it returns only with the connection closed
+//@ func (*ClientConn).keepAliveLoop
+//@   props C15
+//@   requires c.transport != nil && c.ctx != nil
+//@   ghostvar failed bool = false
+//@   ghostvar closedIt bool = false
+//@   after call sendPing: failed = (res1 != nil)
+//@   after call ClientConn).Close: closedIt = true
+//@   assert call NewTicker: arg0 == c.pingInterval
+//@   assert call ClientConn).Close: failed
+//@   ensures closedIt || done(c.ctx)
+//@   loop 1 invariant !failed && !closedIt
+
+// a ping waits for its pong for exactly the configured timeout
+//@ func (*ClientConn).sendPing
+//@   props C15
+//@   requires c.transport != nil && c.ctx != nil
+//@   assert call WithTimeout: arg1 == c.pingTimeout
+//@   assert call sendRequest: typeis(arg2, *message.Ping) && unbox(arg2, *message.Ping) != nil
+
+// the connect request announces the configured interval and timeout (server defaults only for zero),
+// and the client pings with the configured ones (client defaults only for zero)
+//@ func Connect
+//@   props C15
+//@   assert call waitForConnected: arg0.pingInterval == ite(c.PingInterval == 0, defaultPingInterval, c.PingInterval) && arg0.pingTimeout == ite(c.PingTimeout == 0, defaultPingTimeout, c.PingTimeout)
+//@   assert call waitForConnected: arg1 == ite(c.PingInterval == 0, defaultPingIntervalForServer, c.PingInterval) && arg2 == ite(c.PingTimeout == 0, defaultPingTimeoutForServer, c.PingTimeout)
+
+//@ func (*ClientConn).waitForConnected
+//@   props C15
+//@   assert call Write: typeis(arg0, *message.ConnectRequest) && unbox(arg0, *message.ConnectRequest) != nil && unbox(arg0, *message.ConnectRequest).PingInterval == ite(pingInterval == 0, defaultPingIntervalForServer, pingInterval) && unbox(arg0, *message.ConnectRequest).PingTimeout == ite(pingTimeout == 0, defaultPingTimeoutForServer, pingTimeout)
